@@ -175,7 +175,7 @@ pub fn alpha_beta_search(
         scored_moves
     );
 
-    let (score, result) = scored_moves.pop().unwrap();
+    let (score, result) = scored_moves.pop().ok_or(SearchError::NoAvailableMoves)?;
     context.last_score = Some(score);
     debug!(
         "Alpha-beta search returning best move: {:?} (score: {})",
